@@ -1,1 +1,176 @@
+(* C12 - versioned-zone writers: serialized, FIFO, deadlock-free under every schedule.
+   Model: Model/WritersM.v, a transition system whose step is one lock/event operation (or one piece
+   of unlocked thread-local work) of dns.versioned.Zone.writer / _setup_version / commit / rollback /
+   reader / set_pruning_policy.  `Reachable s`: s is reached from a new zone by ANY number of threads
+   running ANY programs (writers with any edits that commit or roll back, readers by latest/id/serial,
+   policy changes) under ANY schedule.
+     act p   = the pc p owns the open write transaction      wo p = the event p is queued on
+     wq s    = threads owning the events of  _write_event ++ _write_waiters  (ghost, same order)
+     arrivals/admitted/ended = writers in the order of their first critical section in writer(),
+                               of their admission, of the end of their transaction (ghost) *)
 From DV Require Import Base.Prelude Model.VersM Model.WritersM.
+From DV Require Import Proofs.VersInv Proofs.VersThms Proofs.WritersInv Proofs.WritersSerial Proofs.WritersThms.
+Import VersM WritersM.
+
+(* at most one write transaction is open, and _write_txn says whose it is *)
+Theorem mutex : forall s t1 t2,
+  Reachable s -> act (pcs s t1) = true -> act (pcs s t2) = true -> t1 = t2.
+Proof. exact T_mutex. Qed.
+Print Assumptions mutex.
+
+Theorem write_txn_owner : forall s t, Reachable s -> (wtxn s = Some t <-> act (pcs s t) = true).
+Proof. exact T_write_txn_owner. Qed.
+Print Assumptions write_txn_owner.
+
+(* writers are admitted in the order they arrived: the arrival order is the admitted writers followed
+   by the queue, whose order is that of the events in _write_event ++ _write_waiters ... *)
+Theorem fifo : forall s,
+  Reachable s ->
+  arrivals s = admitted s ++ wq s /\
+  Forall2 (fun t e => wo (pcs s t) = Some e) (wq s) (Q s) /\
+  (forall t e, wo (pcs s t) = Some e -> In t (wq s)).
+Proof. exact T_fifo. Qed.
+Print Assumptions fifo.
+
+(* ... and an admission takes the head of that queue, or a newcomer only when the queue is empty *)
+Theorem admission_order : forall s t ev,
+  Reachable s -> pcs s t = Crit (CWriterTest ev) ->
+  admitted (step s t) = admitted s ++ [t] ->
+  (exists rest, ev <> None /\ wq s = t :: rest /\ wq (step s t) = rest) \/
+  (ev = None /\ wq s = [] /\ wq (step s t) = []).
+Proof. exact T_admission_order. Qed.
+Print Assumptions admission_order.
+
+(* no lost wake-up: whenever the zone is free and somebody is queued, the head of the queue has been
+   woken: its event is in _write_event and is set *)
+Theorem no_lost_wakeup : forall s,
+  Reachable s -> wtxn s = None -> wq s <> [] ->
+  exists t e rest, wq s = t :: rest /\ wevent s = Some e /\ mem e (evset s) = true /\ wo (pcs s t) = Some e.
+Proof. exact T_no_lost_wakeup. Qed.
+Print Assumptions no_lost_wakeup.
+
+(* a woken writer is admitted by its next critical section (the loop in writer() runs at most twice) *)
+Theorem woken_writer_is_admitted : forall s t e,
+  Reachable s -> pcs s t = Crit (CWriterTest (Some e)) ->
+  pcs (step s t) t = Rel SetupId /\ wtxn (step s t) = Some t /\ admitted (step s t) = admitted s ++ [t].
+Proof. exact T_woken_writer_is_admitted. Qed.
+Print Assumptions woken_writer_is_admitted.
+
+(* no deadlock: while any thread is unfinished some thread can move *)
+Theorem deadlock_free : forall s t,
+  Reachable s -> pcs s t <> Done -> exists t', enabled s t' = true.
+Proof. exact T_deadlock_free. Qed.
+Print Assumptions deadlock_free.
+
+(* progress: every step strictly decreases the weight of the moving thread ... *)
+Theorem progress : forall s t,
+  Reachable s -> enabled s t = true ->
+  (weight (nedits s t) (pcs (step s t) t) < weight (nedits s t) (pcs s t))%nat.
+Proof. exact T_progress. Qed.
+Print Assumptions progress.
+
+(* ... so with finitely many unfinished threads every run is finite (and, by deadlock_free, can only
+   stop when every thread is Done: every waiting writer is eventually admitted and ends) *)
+Theorem runs_are_bounded : forall sch s ts,
+  Reachable s -> NoDup ts -> (forall t, ~ In t ts -> pcs s t = Done) ->
+  valid_sched s sch -> (length sch <= total s ts)%nat.
+Proof. exact T_runs_are_bounded. Qed.
+Print Assumptions runs_are_bounded.
+
+(* serial equivalence: the history of versions is the serial application of the ended write
+   transactions, which ended in admission order; the retained versions are its tail *)
+Theorem serial_equivalence : forall s,
+  Reachable s ->
+  hist (vz s) = serial (map (prg s) (ended s)) /\
+  admitted s = ended s ++ match wtxn s with Some t => [t] | None => [] end /\
+  (exists dropped, hist (vz s) = dropped ++ versions (vz s)) /\
+  (exists v, last_opt (versions (vz s)) = Some v /\ last_opt (hist (vz s)) = Some v).
+Proof. exact T_serial_equivalence. Qed.
+Print Assumptions serial_equivalence.
+
+Theorem final_state : forall s,
+  Reachable s -> (forall t, pcs s t = Done) ->
+  wtxn s = None /\ wq s = [] /\ arrivals s = admitted s /\ ended s = admitted s /\
+  hist (vz s) = serial (map (prg s) (admitted s)) /\
+  last_opt (versions (vz s)) = last_opt (serial (map (prg s) (admitted s))).
+Proof. exact T_final_state. Qed.
+Print Assumptions final_state.
+
+(* the two unlocked reads of _setup_version are safe: while a writer owns the transaction the id it
+   read is still the next id and its working content is still derived from the newest version *)
+Theorem latest_stable_for_writer : forall s t,
+  Reachable s ->
+  (forall id, wid_of (pcs s t) = Some id -> id = next_id (versions (vz s))) /\
+  on_track (prg s t) (vz s) (pcs s t).
+Proof. exact T_latest_stable_for_writer. Qed.
+Print Assumptions latest_stable_for_writer.
+
+Theorem commit_never_fails : forall s t id c,
+  Reachable s -> pcs s t = Crit (CEndWrite id c true) ->
+  wtxn s = Some t /\
+  exists z', VersM.step (vz_set_wtxn (vz s) (Some (mkW id c true))) WCommit = Ok (z', RUnit) /\
+             hist z' = hist (vz s) ++ [mkV id c] /\ last_opt (versions z') = Some (mkV id c).
+Proof. exact T_commit_never_fails. Qed.
+Print Assumptions commit_never_fails.
+
+(* readers never wait for a write transaction: the lock is only ever held by a thread inside a
+   critical section (never across Event.wait, version set-up or a transaction body), that thread can
+   always move and frees the lock within two of its own steps; a reader needs nothing but the lock *)
+Theorem lock_only_in_critical_sections : forall s t,
+  Reachable s -> lock s = Some t ->
+  holds_lock (pcs s t) = true /\ enabled s t = true /\
+  (lock (step s t) = None \/ lock (step (step s t) t) = None).
+Proof. exact T_lock_only_in_critical_sections. Qed.
+Print Assumptions lock_only_in_critical_sections.
+
+Theorem readers_only_need_the_lock : forall s t sel,
+  pcs s t = Acq (CReaderOpen sel) -> (enabled s t = true <-> lock s = None).
+Proof. exact T_readers_only_need_the_lock. Qed.
+Print Assumptions readers_only_need_the_lock.
+
+(* no partial view: what a reader holds is one of the committed versions of the serial history *)
+Theorem reader_sees_committed : forall s t i c,
+  Reachable s -> rsnap (pcs s t) = Some (i, c) ->
+  In (mkV i c) (hist (vz s)) /\ hist (vz s) = serial (map (prg s) (ended s)).
+Proof. exact T_reader_sees_committed. Qed.
+Print Assumptions reader_sees_committed.
+
+(* ---- non-vacuity: three writers and a reader; writer 1 and 2 queue behind writer 0 *)
+Definition ex_progs (t : nat) : prog :=
+  match t with
+  | 0%nat => PWriter false [EPut 2 1] true
+  | 1%nat => PWriter false [EPut 2 2; EPut 3 1] true
+  | 2%nat => PWriter false [EDel 2] false
+  | 3%nat => PReader SelLatest
+  | _ => PNone
+  end.
+
+(* writer 0 admitted; writers 1, 2 arrive and queue; reader opens; writer 0 commits and wakes 1 *)
+Definition ex_sched : list nat :=
+  [0;0;0;0;0; 1;1;1; 2;2;2; 3;3;3; 0;0;0;0]%nat.
+
+Definition ex_state := run_sched (init ex_progs) ex_sched.
+
+Example ex_reachable : Reachable ex_state.
+Proof. exists ex_progs, ex_sched. reflexivity. Qed.
+
+Example ex_queue : wtxn ex_state = None /\ wq ex_state = [1; 2]%nat /\ wevent ex_state = Some 0%nat /\
+                   waiters ex_state = [1%nat] /\ arrivals ex_state = [0; 1; 2]%nat /\ admitted ex_state = [0%nat] /\
+                   map vid (versions (vz ex_state)) = [1; 2]%Z.
+Proof. vm_compute. repeat split; reflexivity. Qed.
+
+Example ex_woken : pcs (run_sched (init ex_progs) (ex_sched ++ [1; 1]%nat)) 1%nat = Crit (CWriterTest (Some 0%nat)).
+Proof. vm_compute. reflexivity. Qed.
+
+Example ex_reader : rsnap (pcs ex_state 3%nat) = Some (1%Z, []).
+Proof. vm_compute. reflexivity. Qed.
+
+Example ex_commit : exists c, pcs (run_sched (init ex_progs) (firstn 16 ex_sched)) 0%nat = Crit (CEndWrite 2%Z c true).
+Proof. eexists. vm_compute. reflexivity. Qed.
+
+Example ex_final :
+  let s := run_sched (init ex_progs) (ex_sched ++ [1;1;1;1;1;1;1;1;1;1;1;1; 2;2;2;2;2;2;2;2;2;2;2; 3;3;3;3;3]%nat) in
+  forallb (fun t => match pcs s t with Done => true | _ => false end) [0;1;2;3]%nat = true /\
+  admitted s = [0; 1; 2]%nat /\ map vid (hist (vz s)) = [1; 2; 3]%Z /\
+  last_opt (versions (vz s)) = Some (mkV 3 [(2, 2); (3, 1)]%Z).
+Proof. vm_compute. repeat split; reflexivity. Qed.
